@@ -6,6 +6,7 @@
 import UVerifProofs.Lemmas.Quire
 import UVerifProofs.Lemmas.Pow2
 import UVerifProofs.Lemmas.PositArith
+import UVerifProofs.Lemmas.QuireOperand
 import Mathlib.Tactic.FieldSimp
 import Mathlib.Algebra.BigOperators.Group.List.Basic
 
@@ -242,3 +243,147 @@ theorem C05_round_once (n es : Nat) (hn : 2 ≤ n) (L : Layout) (q : QState) (hq
   rw [e]
   apply Nat.mul_lt_mul_of_pos_right _ (Nat.two_pow_pos _)
   rw [Nat.pow_succ] at hhi; omega
+
+/-! ### the operands of the property lose nothing at alignment; value-level exactness -/
+
+/-- **A posit operand is accumulated without loss.** For every nbits ≥ 2 (the quire itself requires nbits ≥ 3), every es,
+    every capacity and every real-valued non-zero encoding `a`: the bits that land in the quire denote exactly |a|
+    (nothing falls below the quire's lsb), the scale lies within ±half_range, so `operator+=` never throws. -/
+theorem C05_posit_operand_exact (n es cap a : Nat) (hn : 2 ≤ n) (ha : a < 2 ^ n) (h0 : a ≠ 0)
+    (hnar : a ≠ 2 ^ (n - 1)) :
+    Posit.positVal n es a = some (Posit.decode n es a).toRat ∧
+    ((aligned (layoutOf n es cap) (Posit.decode n es a).fb (Posit.decode n es a).frac
+        (Posit.decode n es a).scale : Nat) : ℚ) * 2 ^ (-((layoutOf n es cap).hr : Int))
+      = |(Posit.decode n es a).toRat| ∧
+    -((layoutOf n es cap).hr : Int) ≤ (Posit.decode n es a).scale ∧
+    (Posit.decode n es a).scale ≤ ((layoutOf n es cap).hr : Int) ∧
+    ∀ q, addValue (layoutOf n es cap) q (Posit.decode n es a) =
+      .ok (accumulate (layoutOf n es cap) q (Posit.decode n es a).sign
+        (aligned (layoutOf n es cap) (Posit.decode n es a).fb (Posit.decode n es a).frac
+          (Posit.decode n es a).scale)) := by
+  obtain ⟨N, rfl⟩ : ∃ N, n = N + 2 := ⟨n - 2, by omega⟩
+  obtain ⟨hfin, _, hv, _⟩ := decode_abs N es a ha h0 hnar
+  obtain ⟨e1, e2, e3⟩ := posit_operand_exact N es cap a ha h0 hnar
+  exact ⟨hv, e1, e2, e3, fun q => C05_addValue_is_accumulate _ q _ hfin.nz e3 e2⟩
+
+/-- non-vacuity: minpos of posit<16,2> (scale −56, regime fills the encoding) in the quire<16,2,30> -/
+example := C05_posit_operand_exact 16 2 30 0x0001 (by decide) (by decide) (by decide) (by decide)
+
+/-- **An exact posit product is accumulated without loss.** `quire_mul(a,b)` of two real-valued non-zero posits is the exact
+    product, a whole multiple of 2^-half_range = minpos², with scale within ±half_range: nothing is dropped, nothing throws. -/
+theorem C05_product_operand_exact (n es cap a b : Nat) (hn : 2 ≤ n) (ha : a < 2 ^ n) (ha0 : a ≠ 0)
+    (hanar : a ≠ 2 ^ (n - 1)) (hb : b < 2 ^ n) (hb0 : b ≠ 0) (hbnar : b ≠ 2 ^ (n - 1)) :
+    quireMul n es a b = Posit.moduleMul (Posit.fbitsOf n es) (Posit.decode n es a) (Posit.decode n es b) ∧
+    (∀ x y, Posit.positVal n es a = some x → Posit.positVal n es b = some y →
+      (quireMul n es a b).toRat = x * y) ∧
+    ((aligned (layoutOf n es cap) (quireMul n es a b).fb (quireMul n es a b).frac
+        (quireMul n es a b).scale : Nat) : ℚ) * 2 ^ (-((layoutOf n es cap).hr : Int))
+      = |(quireMul n es a b).toRat| ∧
+    -((layoutOf n es cap).hr : Int) ≤ (quireMul n es a b).scale ∧
+    (quireMul n es a b).scale ≤ ((layoutOf n es cap).hr : Int) ∧
+    ∀ q, addValue (layoutOf n es cap) q (quireMul n es a b) =
+      .ok (accumulate (layoutOf n es cap) q (quireMul n es a b).sign
+        (aligned (layoutOf n es cap) (quireMul n es a b).fb (quireMul n es a b).frac
+          (quireMul n es a b).scale)) := by
+  obtain ⟨N, rfl⟩ : ∃ N, n = N + 2 := ⟨n - 2, by omega⟩
+  obtain ⟨hq, hfin, hval, e1, e2, e3⟩ := product_operand_exact N es cap a b ha ha0 hanar hb hb0 hbnar
+  obtain ⟨_, _, hva, _⟩ := decode_abs N es a ha ha0 hanar
+  obtain ⟨_, _, hvb, _⟩ := decode_abs N es b hb hb0 hbnar
+  refine ⟨hq, ?_, e1, e2, e3, fun q => C05_addValue_is_accumulate _ q _ hfin.nz e3 e2⟩
+  intro x y hx hy
+  rw [hx] at hva; rw [hy] at hvb
+  rw [hval, Option.some.inj hva, Option.some.inj hvb]
+
+/-- non-vacuity: minpos·minpos of posit<16,2> = 2^-112 = one unit in the last place of the quire -/
+example := C05_product_operand_exact 16 2 30 0x0001 0x0001 (by decide) (by decide) (by decide) (by decide)
+  (by decide) (by decide) (by decide)
+
+theorem C05_toRat_eq_qRat (L : Layout) (q : QState) : q.toRat L = qRat L q := by
+  unfold QState.toRat qRat; rw [UVerif.pow2_eq_zpow]
+
+/-- **Exactness of histories at the value level.** For every nbits ≥ 2, es, capacity, and every history of `q += p`, `q -= p`,
+    `q += quire_mul(a,b)`, `q -= quire_mul(a,b)` on real-valued posits (exact values `rs`) whose prefix sums stay strictly inside
+    the capacity (|Σ| < 2^(upper_range + capacity)): no step throws, the final quire content is exactly Σ rs, and the single
+    rounding returns the posit the Standard selects for that exact sum. -/
+theorem C05_history_exact_values (n es cap : Nat) (hn : 2 ≤ n) (ops : List Op) (rs : List ℚ)
+    (hreal : RealOps n es ops rs)
+    (hfit : FitsQ (2 ^ (((layoutOf n es cap).ur + (layoutOf n es cap).cap : Nat) : Int)) 0 rs) :
+    ∃ q, ops.foldlM (step n es (layoutOf n es cap)) ({} : QState) = .ok q ∧
+      q.WF (layoutOf n es cap) ∧ q.Canon (layoutOf n es cap) ∧
+      q.toRat (layoutOf n es cap) = rs.sum ∧
+      Posit.PositNearest n es rs.sum (roundToPosit n es (layoutOf n es cap) q) := by
+  obtain ⟨N, rfl⟩ : ∃ N, n = N + 2 := ⟨n - 2, by omega⟩
+  have w0 : ({} : QState).WF (layoutOf (N + 2) es cap) := ⟨Nat.two_pow_pos _, Nat.two_pow_pos _, Nat.two_pow_pos _⟩
+  have c0 : ({} : QState).Canon (layoutOf (N + 2) es cap) := fun _ => rfl
+  have z0 : qRat (layoutOf (N + 2) es cap) ({} : QState) = 0 := by simp [qRat, QState.toInt, QState.mag]
+  obtain ⟨q, e, w, c, v⟩ := history_spec N es cap ops rs hreal {} w0 c0 (by rw [z0]; exact hfit)
+  rw [z0, zero_add] at v
+  refine ⟨q, e, w, c, by rw [C05_toRat_eq_qRat, v], ?_⟩
+  by_cases hM : q.mag (layoutOf (N + 2) es cap) = 0
+  · have hs : rs.sum = 0 := by
+      rw [← v]; unfold qRat QState.toInt; rw [hM]; simp
+    rw [hs]
+    unfold roundToPosit Posit.convert
+    rw [if_pos (toValue_zero _ q hM)]
+    exact Posit.nearestB_zero (N + 2) es
+  · have := C05_round_once (N + 2) es hn _ q w hM
+    rw [C05_toRat_eq_qRat, v] at this
+    exact this
+
+/-- **fdp is the correctly rounded exact dot product.** If all factors are real-valued and the prefix sums of the exact
+    products stay inside the capacity, `fdp` returns (without throwing) the posit the Standard selects for Σ xᵢ·yᵢ. -/
+theorem C05_fdp_correctly_rounded (n es cap : Nat) (hn : 2 ≤ n) (xs : List (Nat × Nat)) (rs : List ℚ)
+    (hreal : RealOps n es (xs.map fun ab => Op.addM ab.1 ab.2) rs)
+    (hfit : FitsQ (2 ^ (((layoutOf n es cap).ur + (layoutOf n es cap).cap : Nat) : Int)) 0 rs) :
+    ∃ p, fdp n es cap xs = .ok p ∧ Posit.PositNearest n es rs.sum p := by
+  obtain ⟨q, e, _, _, _, hr⟩ := C05_history_exact_values n es cap hn _ rs hreal hfit
+  refine ⟨roundToPosit n es (layoutOf n es cap) q, ?_, hr⟩
+  unfold fdp
+  simp only []
+  rw [List.foldlM_map] at e
+  rw [e]; rfl
+
+/-- exact values of a real-valued history are a function of the operations -/
+theorem C05_realOps_sum (n es : Nat) (ops : List Op) (rs : List ℚ) (h : RealOps n es ops rs) :
+    rs.sum = (ops.map fun op => (opReal n es op).getD 0).sum := by
+  unfold RealOps at h
+  induction h with
+  | nil => rfl
+  | cons hr _ ih => simp only [List.map_cons, List.sum_cons, ih, hr, Option.getD_some]
+
+/-- **Order independence at the value level.** Two real-valued histories that are permutations of each other, both within
+    capacity, end in the same quire state, hence in the same rounded posit: the correctly rounded exact sum. -/
+theorem C05_history_perm_values (n es cap : Nat) (hn : 2 ≤ n) (ops ops' : List Op) (rs rs' : List ℚ)
+    (hp : ops.Perm ops') (hreal : RealOps n es ops rs) (hreal' : RealOps n es ops' rs')
+    (hfit : FitsQ (2 ^ (((layoutOf n es cap).ur + (layoutOf n es cap).cap : Nat) : Int)) 0 rs)
+    (hfit' : FitsQ (2 ^ (((layoutOf n es cap).ur + (layoutOf n es cap).cap : Nat) : Int)) 0 rs') :
+    rs.sum = rs'.sum ∧
+    ops.foldlM (step n es (layoutOf n es cap)) ({} : QState) =
+      ops'.foldlM (step n es (layoutOf n es cap)) ({} : QState) := by
+  have hsum : rs.sum = rs'.sum := by
+    rw [C05_realOps_sum n es ops rs hreal, C05_realOps_sum n es ops' rs' hreal']
+    exact (hp.map _).sum_eq
+  obtain ⟨q, e, w, c, v, _⟩ := C05_history_exact_values n es cap hn ops rs hreal hfit
+  obtain ⟨q', e', w', c', v', _⟩ := C05_history_exact_values n es cap hn ops' rs' hreal' hfit'
+  refine ⟨hsum, ?_⟩
+  rw [e, e']
+  congr 1
+  apply state_ext _ _ _ w w' c c'
+  rw [C05_toRat_eq_qRat] at v v'
+  have h : qRat (layoutOf n es cap) q = qRat (layoutOf n es cap) q' := by rw [v, v', hsum]
+  unfold qRat at h
+  have hu : (2 : ℚ) ^ (-((layoutOf n es cap).hr : Int)) ≠ 0 := ne_of_gt (Posit.two_zpow_pos _)
+  have := mul_right_cancel₀ hu h
+  exact_mod_cast this
+
+/-- non-vacuity: posit<8,1>, quire capacity 6: 1 + 1·1.5 − 1, exact values [1, 3/2, −1] -/
+example : ∃ q, [Op.addP 0x40, Op.addM 0x40 0x48, Op.subP 0x40].foldlM (step 8 1 (layoutOf 8 1 6)) ({} : QState) = .ok q ∧
+    q.toRat (layoutOf 8 1 6) = 3 / 2 := by
+  have hreal : RealOps 8 1 [Op.addP 0x40, Op.addM 0x40 0x48, Op.subP 0x40] [1, 3 / 2, -1] := by
+    refine List.Forall₂.cons ?_ (List.Forall₂.cons ?_ (List.Forall₂.cons ?_ List.Forall₂.nil)) <;> decide +kernel
+  have hfit : FitsQ (2 ^ (((layoutOf 8 1 6).ur + (layoutOf 8 1 6).cap : Nat) : Int)) 0 [1, 3 / 2, -1] := by
+    have h31 : (((layoutOf 8 1 6).ur + (layoutOf 8 1 6).cap : Nat) : Int) = 31 := by decide
+    rw [h31]
+    refine ⟨?_, ?_, ?_, trivial⟩ <;> norm_num
+  obtain ⟨q, e, _, _, v, _⟩ := C05_history_exact_values 8 1 6 (by decide) _ _ hreal hfit
+  exact ⟨q, e, by rw [v]; norm_num⟩
